@@ -48,7 +48,7 @@ def y_hat_spec(x, y, integral_value, method, alpha):
 # ------------------------------------------------------------------------------- kernel
 
 contract(KERNEL, params=dict(x=Seq(Real, kind='arraylike'), y=Seq(Real, kind='arraylike'), integral_value=Real, integral_method=Str,
-                             dx=Real, alpha=Real, s=NoneT), returns=Seq(Real), lemmas=[])
+                             dx=Real, alpha=Real, s=NoneT), returns=Seq(Real), lemmas=[], generator='gen_kernel')
 
 
 @requires(KERNEL)
@@ -154,7 +154,7 @@ def kernel_profile(x, y, integral_value, integral_method, dx, alpha, s, result):
 @ensures(KERNEL)
 def kernel_ends_fixed(x, y, integral_value, integral_method, dx, alpha, s, result):
     """C03: with at least one interior sample the two end samples do not move"""
-    return is_ndarray(result) and len(result) == len(y) and implies(len(x) >= 3, result[0] == y[0] and result[len(x) - 1] == y[len(x) - 1])
+    return is_ndarray(result) and len(result) == len(y) and implies(len(x) >= 3, eq(result[0], y[0]) and eq(result[len(x) - 1], y[len(x) - 1]))
 
 
 @ensures(KERNEL)
@@ -166,7 +166,7 @@ def kernel_integral(x, y, integral_value, integral_method, dx, alpha, s, result)
 @ensures(KERNEL, export=False)
 def kernel_idempotent(x, y, integral_value, integral_method, dx, alpha, s, result):
     """C03: a window that already has the requested integral is returned unchanged"""
-    return implies(total(x, y, integral_method) == integral_value, forall(range(len(y)), lambda i: result[i] == y[i]))
+    return implies(total(x, y, integral_method) == integral_value, forall(range(len(y)), lambda i: eq(result[i], y[i])))
 
 
 # ========================================================================== window loop
@@ -174,7 +174,7 @@ def kernel_idempotent(x, y, integral_value, integral_method, dx, alpha, s, resul
 contract(WINDOWS, params=dict(x=Seq(Real, kind='arraylike'), y=Seq(Real, kind='arraylike'), dx=Real,
                               integral_values=Seq(Real, kind='arraylike'), fixed_points_indices_in_x=Seq(Int, kind='arraylike'),
                               integral_method=Str, alpha=Real, s=NoneT),
-         returns=Seq(Real))
+         returns=Seq(Real), generator='gen_windows')
 
 
 def windows_ok(x, f):
@@ -252,7 +252,7 @@ def windows_integrals(x, y, dx, integral_values, fixed_points_indices_in_x, inte
     """C01: the integral between each pair of consecutive fixed points equals its target"""
     return (is_ndarray(result) and len(result) == len(y)
             and forall(range(len(integral_values)), lambda j:
-                       window_integral(x, result, fixed_points_indices_in_x, j, integral_method) == integral_values[j]))
+                       eq(window_integral(x, result, fixed_points_indices_in_x, j, integral_method), integral_values[j])))
 
 
 @ensures(WINDOWS)
@@ -262,7 +262,7 @@ def windows_frame(x, y, dx, integral_values, fixed_points_indices_in_x, integral
                    implies(p < fixed_points_indices_in_x[0] or p > fixed_points_indices_in_x[len(fixed_points_indices_in_x) - 1],
                            result[p] == y[p]))
             and forall(range(len(fixed_points_indices_in_x)), lambda j:
-                       result[fixed_points_indices_in_x[j]] == y[fixed_points_indices_in_x[j]]))
+                       eq(result[fixed_points_indices_in_x[j]], y[fixed_points_indices_in_x[j]])))
 
 
 # ============================================================================ resolution (top level)
@@ -340,10 +340,10 @@ def top_integrals(x, y, x_ref, y_ref, fixed_points_in_x, fixed_points_indices_in
     over the corresponding reference interval"""
     return (is_ndarray(result) and len(result) == len(y)
             and forall(range(len(x_ref) - 1), lambda j:
-                       sum_range(fixed_idx(x, x_ref, j, fixed_points_finding_strategy),
-                                 fixed_idx(x, x_ref, j + 1, fixed_points_finding_strategy),
-                                 lambda i: rule_term(x, result, i, target_function_integral_method))
-                       == rule_term(x_ref, y_ref, j, reference_function_integral_method)))
+                       eq(sum_range(fixed_idx(x, x_ref, j, fixed_points_finding_strategy),
+                                    fixed_idx(x, x_ref, j + 1, fixed_points_finding_strategy),
+                                    lambda i: rule_term(x, result, i, target_function_integral_method)),
+                          rule_term(x_ref, y_ref, j, reference_function_integral_method))))
 
 
 @ensures(TOP)
@@ -353,8 +353,8 @@ def top_frame(x, y, x_ref, y_ref, fixed_points_in_x, fixed_points_indices_in_x, 
     return (forall(range(len(y)), lambda p:
                    implies(p < fixed_idx(x, x_ref, 0, fixed_points_finding_strategy)
                            or p > fixed_idx(x, x_ref, len(x_ref) - 1, fixed_points_finding_strategy), result[p] == y[p]))
-            and forall(range(len(x_ref)), lambda j: result[fixed_idx(x, x_ref, j, fixed_points_finding_strategy)]
-                       == y[fixed_idx(x, x_ref, j, fixed_points_finding_strategy)]))
+            and forall(range(len(x_ref)), lambda j: eq(result[fixed_idx(x, x_ref, j, fixed_points_finding_strategy)],
+                                                       y[fixed_idx(x, x_ref, j, fixed_points_finding_strategy)])))
 
 
 # ------------------------------------------------------------------ run-time generators (bounded stand-in only)
@@ -386,3 +386,27 @@ def gen_top(rnd):
                 target_function_integral_method=rnd.choice(['trapezoid', 'rectangle', 'trapezoid', 'simpson']),
                 reference_function_integral_method=rnd.choice(['rectangle', 'trapezoid', 'rectangle', 'bad']),
                 alpha=rnd.choice([0.5, 1.0, 2.0, 3.0]), s=None)
+
+
+def gen_windows(rnd):
+    import numpy as np
+    q = rnd.randint(1, 4)
+    f = [rnd.randint(0, 2)]
+    for _ in range(q - 1):
+        f.append(f[-1] + rnd.randint(2, 4))
+    n = f[-1] + 1 + rnd.randint(0, 2)
+    xs = np.cumsum([rnd.choice([0.5, 1.0, 1.5]) for _ in range(n)])
+    ys = np.array([float(rnd.randint(-6, 6)) / 2 for _ in range(n)])
+    iv = [float(rnd.randint(-8, 8)) / 2 for _ in range(q - 1)]
+    return dict(x=xs, y=ys if rnd.random() < 0.7 else ys.tolist(), dx=1.0, integral_values=iv if rnd.random() < 0.5 else np.array(iv),
+                fixed_points_indices_in_x=np.array(f) if rnd.random() < 0.6 else f,
+                integral_method=rnd.choice(['trapezoid', 'rectangle', 'trapezoid', 'other']), alpha=rnd.choice([0.5, 1.0, 2.0]), s=None)
+
+
+def gen_kernel(rnd):
+    import numpy as np
+    n = rnd.randint(2, 7)
+    xs = np.cumsum([rnd.choice([0.5, 1.0, 1.5]) for _ in range(n)])
+    ys = np.array([float(rnd.randint(-6, 6)) / 2 for _ in range(n)])
+    return dict(x=xs if rnd.random() < 0.7 else xs.tolist(), y=ys if rnd.random() < 0.7 else ys.tolist(), integral_value=float(rnd.randint(-9, 9)) / 2,
+                integral_method=rnd.choice(['trapezoid', 'rectangle', 'trapezoid', 'bad']), dx=1.0, alpha=rnd.choice([0.5, 1.0, 2.0, 3.0]), s=None)
